@@ -14,6 +14,9 @@ import (
 	"testing/synctest"
 	"time"
 
+	"github.com/ipld/go-ipld-prime/codec/dagcbor"
+	"github.com/ipld/go-ipld-prime/datamodel"
+	"github.com/ipld/go-ipld-prime/fluent/qp"
 	"github.com/ipld/go-ipld-prime/node/basicnode"
 	"github.com/libp2p/go-libp2p/core/connmgr"
 	"github.com/libp2p/go-libp2p/core/host"
@@ -453,6 +456,40 @@ func TestC15_SendPatterns(t *testing.T) {
 
 // ---- inbound --------------------------------------------------------------
 
+// reEnvelope re-encodes a message's envelope with the IsRq flag flipped (the body
+// stays where it was), or with both bodies null.
+func reEnvelope(rt *rapid.T, msg datatransfer.Message, noBody bool) []byte {
+	nd := msg.ToIPLD()
+	get := func(k string) datamodel.Node {
+		v, err := nd.LookupByString(k)
+		if err != nil {
+			return datamodel.Null
+		}
+		return v
+	}
+	flag, _ := get("IsRq").AsBool()
+	req, resp := get("Request"), get("Response")
+	if noBody {
+		req, resp = datamodel.Null, datamodel.Null
+		flag = rapid.Bool().Draw(rt, "flag")
+	} else {
+		flag = !flag
+	}
+	out, err := qp.BuildMap(basicnode.Prototype.Map, 3, func(ma datamodel.MapAssembler) {
+		qp.MapEntry(ma, "IsRq", qp.Bool(flag))
+		qp.MapEntry(ma, "Request", qp.Node(req))
+		qp.MapEntry(ma, "Response", qp.Node(resp))
+	})
+	if err != nil {
+		panic(err)
+	}
+	var b bytes.Buffer
+	if err := dagcbor.Encode(out, &b); err != nil {
+		panic(err)
+	}
+	return b.Bytes()
+}
+
 func TestC15_Inbound(t *testing.T) {
 	sp := stats.For("C15")
 	rapid.Check(t, func(rt *rapid.T) {
@@ -461,7 +498,7 @@ func TestC15_Inbound(t *testing.T) {
 		if err := msg.ToNet(&valid); err != nil {
 			rt.Fatalf("HARNESS ToNet: %v", err)
 		}
-		class := rapid.SampledFrom([]string{"valid", "valid", "valid+tail", "garbage", "truncated", "empty"}).Draw(rt, "class")
+		class := rapid.SampledFrom([]string{"valid", "valid", "valid+tail", "garbage", "truncated", "empty", "wrong-flag", "no-body"}).Draw(rt, "class")
 		var content []byte
 		switch class {
 		case "valid":
@@ -481,6 +518,9 @@ func TestC15_Inbound(t *testing.T) {
 			content = valid.Bytes()[:rapid.IntRange(1, valid.Len()-1).Draw(rt, "cut")]
 		case "empty":
 			content = nil
+		case "wrong-flag", "no-body":
+			// a schema-valid envelope whose IsRq flag disagrees with the body present, or without any body
+			content = reEnvelope(rt, msg, class == "no-body")
 		}
 		remote := gen.Peer(rapid.IntRange(1, 9).Draw(rt, "remote"))
 		rcv := &receiverDouble{}
@@ -531,7 +571,7 @@ func TestC15_Inbound(t *testing.T) {
 			if s.closes < 1 {
 				failf("C15/inbound-not-closed", "stream not closed")
 			}
-		case "valid+tail", "garbage":
+		case "valid+tail", "garbage", "wrong-flag", "no-body":
 			if len(handlers) != 0 {
 				failf("C15/malformed-dispatched", "a message handler was invoked for a malformed stream")
 			}
